@@ -31,6 +31,23 @@ def closure_wraps(term):
     return False
 
 
+def map_err_wraps(fn, term):
+    """`res.map_err(f)` where f is a local closure (directly, or held in a variable) whose error parameter comes back wrapped with a
+    context on every path."""
+    if PROG is None or len(term["args"]) != 2:
+        return False
+    from . import dataflow as df
+    e = df.operand_expr(fn, term["args"][1])
+    if not (isinstance(e, tuple) and e and e[0] == "closure" and e[1] in PROG.fns):
+        return False
+    cl = PROG.fns[e[1]]
+    for p_ in range(2, cl.arg_count + 1):
+        f = fate_of(cl, p_)
+        if f.wrapped and f.returned and not f.returned_raw:
+            return True
+    return False
+
+
 def is_wrapper(path):
     return any(path.endswith(w) or w in path for w in WRAPPERS) and ("context" in path)
 
@@ -124,8 +141,13 @@ def fate_of(fn, l, wrapped=False, seen=None, fate=None, depth=0):
                 if dest is not None:
                     fate_of(fn, dest, True, seen, fate, depth + 1)
             elif any(p.endswith(x) or q.endswith(x) for x in PASS_THROUGH):
+                w2 = wrapped
+                if (p.endswith("Result::<T, E>::map_err") or q.endswith("Result::<T, E>::map_err")) and extra == 0 and map_err_wraps(fn, obj):
+                    # res.map_err(|e| e.context(..)): the closure puts the context on
+                    w2 = True
+                    fate.wrapped = True
                 if dest is not None:
-                    fate_of(fn, dest, wrapped, seen, fate, depth + 1)
+                    fate_of(fn, dest, w2, seen, fate, depth + 1)
             elif p.endswith("Result::<T, E>::or") or q.endswith("Result::<T, E>::or"):
                 # a.or(b): when a is Err its error is replaced by b's outcome, when a is Ok the already evaluated b is dropped
                 # with whatever error it holds - either way an error can vanish
